@@ -111,6 +111,17 @@ TABLE = [
     (("C15",), "fmt::friendly::printer::SpanPrinter::print_duration_hms", "any", "out:wtr", SD("dur"), "seconds and nanoseconds are printed"),
     (("C15",), "fmt::temporal::printer::SpanPrinter::print_span", "any", "out:wtr", S("span", U10 + ["sign"]), "every unit is printed"),
     (("C15",), "fmt::temporal::printer::SpanPrinter::print_duration", "any", "out:wtr", SD("dur"), "seconds and nanoseconds are printed"),
+    # ---- C09 default printers: the text depends on every field of the value
+    (("C09",), "fmt::temporal::printer::DateTimePrinter::print_zoned", "any", "out:wtr", ["zdt.inner.timestamp.second", "zdt.inner.timestamp.nanosecond", "zdt.inner.time_zone"],
+     "instant and zone are both printed"),
+    (("C09",), "fmt::temporal::printer::DateTimePrinter::print_timestamp", "any", "out:wtr", TS("timestamp"), "seconds and fraction are printed"),
+    (("C09",), "fmt::temporal::printer::DateTimePrinter::print_datetime", "any", "out:wtr", DT("dt"), "date and time are printed"),
+    (("C09",), "fmt::temporal::printer::DateTimePrinter::print_date", "any", "out:wtr", S("date", ["year", "month", "day"]), "year, month and day are printed"),
+    (("C09",), "fmt::temporal::printer::DateTimePrinter::print_time", "any", "out:wtr", S("time", ["hour", "minute", "second", "subsec_nanosecond"]),
+     "every time field is printed"),
+    (("C09",), "fmt::temporal::printer::DateTimePrinter::print_offset_rounded", "any", "out:wtr", ["offset.span"], "the offset is printed"),
+    (("C09",), "fmt::temporal::printer::DateTimePrinter::print_time_zone_annotation", "any", "out:wtr", ["time_zone.repr", "offset.span"],
+     "IANA name, or the fixed offset itself, is printed"),
     # ---- C02 / C03 / C04 / C14: instant <-> civil and zone lookups read the whole instant / datetime
     (("C02",), "tz::offset::Offset::to_datetime", "each", "ret", TS("timestamp") + ["self.span"], "civil = decomposition of t + o"),
     (("C02",), "tz::offset::Offset::to_timestamp", "each", "ret", DT("dt") + ["self.span"], "instant = civil - o"),
